@@ -9,7 +9,8 @@ C07_explicit_list_as_written C07_parse_faithful C07_build_wf_bounded C07_dump_st
 C07_export_rejects_unknown_flags C07_126_levels_accepted C07_deeper_level_interleave_ignored C07_trailing_colon_ignored
 C07_overlapping_strides_rejected C07_interleave_by_pu
 C07_attached_numa_present C07_numa_census_filter_independent C07_unfilterable_types C07_filtered_levels_keep_numas
-C07_attached_numa_survive_filters_bounded""".split()]
+C07_attached_numa_survive_filters_bounded
+C07_build_wf_clauses C07_build_wf_partial C07_build_wf_reduction C07_build_wf_unproved_clauses C07_export_fixpoint_partial""".split()]
 CHECK_MODULES = ["Hw.Props.C07"]
 TRUSTED = ["libc strtoul/strtoull/strtol are modelled (Hw.Base.Num.strtoul for unsigned input, Hw.Syn.strtoulS/strtolU32 add glibc's sign, "
            "saturation and (unsigned) truncation); strchr/strspn/strcspn/strncmp/strncasecmp (C locale) are modelled in Hw.Io.Synthetic; "
@@ -41,9 +42,12 @@ MODELLED = ("modelled: hwloc/topology-synthetic.c hwloc_synthetic_process_indexe
             "PROVED for every input string: level[] index safety, loops[] write safety, array length/Nodup/permutation of accepted indexes, "
             "export length contract, one census entry per described NUMA node independent of the normal-type filters, devirt keeps the "
             "number of NUMA nodes and leaves no unbuilt level (every chain), PU/NUMA/Machine cannot be filtered out, parse_faithful (types and arities of canonical descriptions without attributes); "
-            "build_wf only for a finite family (C07_build_wf_bounded, kernel-evaluated); NOT PROVED (differential / oracle per case): "
-            "build_wf in general (wfCheck runs on the real dump of every loaded topology and on the model's dump of every Regular one), "
-            "export_fixpoint (engine oracle; F34/F35 known), parse_faithful with attributes")
+            "build_wf: 45 of the 47 WF clauses for EVERY abstract topology under the side conditions topoOK/puOK/memOK/numaOK, which the driver "
+            "evaluates on every built case (C07_build_wf_clauses; C07_build_wf_partial reduces WF to the clauses nodeset-decomposition and "
+            "siblings-ordered, which stay proved for a finite family only: C07_build_wf_bounded); export_fixpoint for the flag word "
+            "NO_ATTRS|IGNORE_MEMORY (C07_export_fixpoint_partial, re-evaluated per case against hwloc's string); NOT PROVED (differential / "
+            "oracle per case): the two remaining WF clauses in general, that the side conditions follow from buildTopo, export_fixpoint under the "
+            "other 15 flag words (engine oracle; F34/F35 known), parse_faithful with attributes")
 
 def run_engines(tier, seed):
     return eng_synthetic.run_engine(tier, seed)
